@@ -55,6 +55,22 @@ def run(ctx):
         for k in tot:
             tot[k] += s[k]
         batches.append(out)
+    # the same sweeps with detailed error tracking switched on (another global switch that changes what `rule` does
+    # around the limit check): random grammars and a thinned core slice
+    for i in range(2 if quick else 8):
+        out = os.path.join(ctx.work, "sw_detail_%d.ndjson" % i)
+        s = run_json([vh, "c12-emit", "--seed", str(ctx.seed * 100 + 50 + i), "--grammars", "150" if quick else "400", "--detail", "1", "--out", out], timeout=6000)
+        for k in tot:
+            tot[k] += s[k]
+        batches.append(out)
+    cases, rs, n = gen_slice(ctx, "core", 3, 3, 3, jobs=12)
+    thin(cases, 4 if quick else 1)
+    out = os.path.join(ctx.work, "sw_detail_core.ndjson")
+    s = run_json([vh, "c12-emit", "--cases", cases, "--detail", "1", "--out", out], timeout=6000)
+    os.remove(cases)
+    for k in tot:
+        tot[k] += s[k]
+    batches.append(out)
     # split big batches for parallel TLC
     parts = []
     for b in batches:
@@ -94,7 +110,7 @@ def run(ctx):
     ctx.cov["engines"].append({"name": "Trace_CallLimit", "role": "Sound/Monotone of CallLimit.tla on every recorded sweep"})
     ctx.assumptions += ["quick tier: every 3rd grammar of the ws slice; thorough: all", "the limit is a process global: sweeps run single-threaded",
                         "parses that panic with the documented empty-stack POP/PEEK message or need more than 120 counted calls are not swept",
-                        "VM back-end only in this round (the counter lives in the shared ParserState)"]
+                        "VM back-end only in this round (the counter lives in the shared ParserState)", "sweeps with error detail on: random grammars and a sample of the core slice"]
 
 
 def replay(ctx, path):
